@@ -34,7 +34,8 @@ Status on the current tree (`pinned` = two known execution-only sites):
    `execute_total_violated`, `execute_total_partial`, `execute_total_repaired`; for every type but GOVERNANCE it
    holds in full: `execute_total_other_types`.
  * `less_total`, `sort_total`, `threshold_total`: the two round-3 repairs are sufficient for all inputs.
- * `gasPrice_nonzero_all_histories`: the invariant the fee divisions rely on, over all histories of votes.
+ * `gasPrice_nonzero_all_histories` + `admitted_vote_candidates_validated`: the invariant the fee divisions rely on,
+   over all histories of admitted votes.
  * tie T: `every_open_op_accounted`, `every_site_anchored`, `dispatch_known`, `auto_rules_known`.
 -/
 import Aergo.Lemmas.Admit
@@ -268,6 +269,14 @@ theorem gasPrice_nonzero_all_histories (e : Env) (issue : Nat) (s0 : ParamSt) (h
         split <;> exact hc
     · intro st' hst'
       exact hs st' (by simp [hst'])
+
+/-- The `vote` steps of that history are exactly what stateful validation lets through: every candidate of a
+parameter vote accepted by `system.ValidateSystemTx` is a string that `SetString` parses to a number `validateById`
+accepts for the issue (in particular: not zero). -/
+theorem admitted_vote_candidates_validated (u : List Site) (e : Env) (c : SysCtx) (h : sysValidate u e = .ok c)
+    (hp : c.proposal = true) :
+    ∀ v ∈ c.ci.args.drop 1, ∃ s n, v = .str s ∧ parseBigInt s = some n ∧ ParamStep.valid e c.issue (.vote n) :=
+  sysValidate_dao_valid h hp
 
 /-! ### Witnesses (tests by `decide` on concrete inputs; the same inputs were run on the real code,
 see notes/C14.md) -/
